@@ -316,3 +316,73 @@ def run_operator_wiring(repo, task):
     if n < 20:
         rep['detail'] = f'only {n} operator dunders found in ContainerOperand'
     return rep
+
+
+def run_loc_is_iloc_sites(repo, task):
+    """C02 site obligations read off the AST (G9): the `loc_is_iloc` shortcut ("labels equal positions, no map is built") is sound only when the
+    labels ARE the positions 0..n-1.  At every call site anywhere in static_frame/core passing `loc_is_iloc=<not False>`: the labels passed are
+    `PositionsAllocator.get(...)`.  At every assignment to a variable `loc_is_iloc`: it is copied from an Index whose own map is absent
+    (`labels._map is None`) and the labels and positions of that same Index are the ones taken.  A new site is a new obligation."""
+    import ast
+    t0 = time.time()
+    items, failures = [], []
+
+    def ob(name, ok, note, fn):
+        items.append(dict(name=name, fn=fn, kind='G9', verdict='proved' if ok else 'refuted', backend='ast', ms=0.0, note=note))
+        if not ok:
+            failures.append(dict(key=f'G:{name}', what=f'{name}: {note}', nofail=True, replay=dict(site=name, note=note)))
+    core = os.path.join(repo, 'static_frame/core')
+    n_calls = n_assign = 0
+    for mod in sorted(f for f in os.listdir(core) if f.endswith('.py')):
+        tree = ast.parse(open(os.path.join(core, mod)).read())
+        funcs = [n for n in ast.walk(tree) if isinstance(n, (ast.FunctionDef, ast.AsyncFunctionDef))]
+        for fn in funcs:
+            own = [n for n in ast.walk(fn)]
+            inner = {id(x) for f2 in own if isinstance(f2, (ast.FunctionDef, ast.AsyncFunctionDef)) and f2 is not fn for x in ast.walk(f2)}
+            k_call = k_asg = 0
+            for node in own:
+                if id(node) in inner:
+                    continue
+                if isinstance(node, ast.Call):
+                    kw = [k for k in node.keywords if k.arg == 'loc_is_iloc']
+                    if not kw or (isinstance(kw[0].value, ast.Constant) and kw[0].value.value is False):
+                        continue
+                    n_calls += 1
+                    q = f'{mod}:{fn.name}'
+                    lab = next((k.value for k in node.keywords if k.arg == 'labels'), node.args[0] if node.args else None)
+                    def is_alloc(e):
+                        return isinstance(e, ast.Call) and ast.unparse(e.func) == 'PositionsAllocator.get'
+                    ok = lab is not None and is_alloc(lab)
+                    note = f'labels={ast.unparse(lab) if lab is not None else None}, loc_is_iloc={ast.unparse(kw[0].value)}'
+                    if not ok and isinstance(lab, ast.Name):
+                        asg = [a for a in own if isinstance(a, ast.Assign) and id(a) not in inner and any(isinstance(t, ast.Name) and t.id == lab.id for t in a.targets)]
+                        ok = len(asg) == 1 and is_alloc(asg[0].value) and asg[0].lineno < node.lineno
+                        note += f'; {lab.id} = {ast.unparse(asg[0].value) if asg else "?"} ({len(asg)} assignment(s))'
+                    ob(f'{q}:call-with-loc_is_iloc#{k_call}', ok, note, q)
+                    k_call += 1
+                if isinstance(node, ast.Assign) and any(isinstance(t, ast.Name) and t.id == 'loc_is_iloc' for t in node.targets):
+                    n_assign += 1
+                    q = f'{mod}:{fn.name}'
+                    src = None
+                    v = node.value
+                    if isinstance(v, ast.Compare) and len(v.ops) == 1 and isinstance(v.ops[0], ast.Is) and isinstance(v.comparators[0], ast.Constant) \
+                            and v.comparators[0].value is None and isinstance(v.left, ast.Attribute) and v.left.attr == '_map' and isinstance(v.left.value, ast.Name):
+                        src = v.left.value.id
+                    ok = src is not None
+                    # the labels (and positions) taken are those of the same source index, in the same block
+                    sib = None
+                    for parent in own:
+                        for fld in ('body', 'orelse'):
+                            blk = getattr(parent, fld, None)
+                            if isinstance(blk, list) and node in blk:
+                                sib = blk
+                    texts = [ast.unparse(s_) for s_ in (sib or [])]
+                    ok = ok and f'labels = {src}._labels' in texts and f'positions = {src}._positions' in texts
+                    ob(f'{q}:assign-loc_is_iloc#{k_asg}', ok, f'loc_is_iloc = {ast.unparse(v)}; block: {texts}', q)
+                    k_asg += 1
+    good = n_calls >= 1 and n_assign >= 1
+    rep = dict(name=task['name'], status='ok' if good else 'checker-fault', items=items, failures=failures, evaluations=0, distinct=0, rule='',
+               samples=[dict(obligation=i['name'], verdict=i['verdict']) for i in items[:3]], trusted=[], assumptions=[], wall_s=round(time.time() - t0, 2))
+    if not good:
+        rep['detail'] = f'{n_calls} call sites / {n_assign} assignments of loc_is_iloc found: the generator no longer matches the source layout'
+    return rep
